@@ -316,8 +316,9 @@ def fn_to_sympy(
         # Evaluated fns and floats from attributes
         if isinstance(sympy_expr, float):
             return sympy.Float(sympy_expr)
-        if model_args is not None and len(model_args):
+        if model_args is not None:
             # simultaneous: model names may equal the function's own argument names
+            # strict: a call that leaves arguments to their defaults is not supported
             sympy_expr = sympy_expr.subs(
                 dict(zip(fn_args, model_args, strict=True)), simultaneous=True
             )
